@@ -8,13 +8,14 @@ gpts / sampling arithmetic and the `ScanAxis` arguments are the generated defini
 `(gpts − 1) × sampling`) is what makes the linspace step equal to the reported sampling.
 
 The probe part ("a probe at r is the origin probe shifted periodically by r") is proved for the 1-D DFT on `ZMod N`
-and whole-pixel shifts (`probe_shift_partial`); the 2-D separable case and fractional (band-limited) shifts are
-observed on the real code by the conformance oracle.
+(`probe_shift_partial`) and lifted to the separable 2-D DFT (`probe_shift_2d`, `probe_position_is_shift_partial`) for
+whole-pixel shifts; fractional (band-limited) shifts are observed on the real code by the conformance oracle.
 -/
 import AbtemVerif.Model.Scan
 import AbtemVerif.Lib.Linspace
 import AbtemVerif.Lib.GridInv
 import Mathlib.Analysis.Fourier.ZMod
+import AbtemVerif.Lib.DFT2
 
 namespace AbtemVerif.Props.C20
 open AbtemVerif.Scan AbtemVerif.Np AbtemVerif.Gen.Scan AbtemVerif.Gen.Grid AbtemVerif.Props.C17
@@ -331,6 +332,16 @@ theorem linescan_axis_coordinates (l : LineScan) (n : Nat) (s : Rat) (hs : l.sam
   rw [axis_coordinates_spec]
   simp
 
+/-! ### CustomScan -/
+
+/-- a CustomScan yields exactly the positions it was given, and its `PositionsAxis` lists the same coordinates -/
+theorem customscan_spec (c : CustomScan) :
+    customPositions c = c.positions ∧ (c.positions ≠ [] → customAxisValues c = some (customPositions c) ∧
+      customShape c = [(customPositions c).length]) := by
+  refine ⟨rfl, fun h => ?_⟩
+  have : c.positions.isEmpty = false := by cases hc : c.positions <;> simp_all
+  simp [customAxisValues, customShape, customPositions, this]
+
 /-! ### an observation about the setters (documented in design/C20.md) -/
 
 /-- observation (outside the claims of C20, see design/C20.md): with `endpoint=True`, re-assigning the *same* end point
@@ -359,6 +370,41 @@ theorem probe_shift_partial (N : ℕ) [NeZero N] (Φ : ZMod N → ℂ) (p : ZMod
   rw [← mul_assoc, ← AddChar.map_add_eq_mul]
   congr 2
   ring
+
+
+open AbtemVerif.DFT ZMod in
+/-- **2-D shift rule** for the separable DFT on an `n × m` grid (`Lib/DFT2.zmodPair2`): the spectrum of the array shifted
+periodically by `(p, q)` pixels is the spectrum times the product of the two phase ramps — exactly the array
+`fft_shift_kernel` builds (`k[0] * k[1]`). -/
+theorem probe_shift_2d (n m : ℕ) [NeZero n] [NeZero m] (Φ : ZMod n × ZMod m → ℂ) (p : ZMod n) (q : ZMod m)
+    (k : ZMod n) (l : ZMod m) :
+    (zmodPair2 n m).F (fun r => Φ (r.1 - p, r.2 - q)) (k, l)
+      = (stdAddChar (-(p * k)) : ℂ) * (stdAddChar (-(q * l)) : ℂ) * (zmodPair2 n m).F Φ (k, l) := by
+  show ZMod.dft (fun i => ZMod.dft (fun j => Φ (i - p, j - q)) l) k
+      = _ * _ * ZMod.dft (fun i => ZMod.dft (fun j => Φ (i, j)) l) k
+  have h1 : ∀ i, ZMod.dft (fun j => Φ (i - p, j - q)) l
+      = (stdAddChar (-(q * l)) : ℂ) * ZMod.dft (fun j => Φ (i - p, j)) l :=
+    fun i => congrFun (probe_shift_partial m (fun j => Φ (i - p, j)) q) l
+  simp only [h1]
+  rw [ZMod.dft_const_mul]
+  have h2 := congrFun (probe_shift_partial n (fun i => ZMod.dft (fun j => Φ (i, j)) l) p) k
+  simp only [h2]
+  ring
+
+open AbtemVerif.DFT ZMod in
+/-- **A probe built at a whole-pixel position is the origin probe shifted periodically**: multiplying the 2-D spectrum of
+the origin probe by the kernel of position `(p, q)` and transforming back (`BaseScan._evaluate_kernel` +
+`ReciprocalSpaceMultiplication`) gives `Φ(i − p, j − q)`, for every probe `Φ` and every grid size.
+(Full statement incl. fractional positions — band-limited interpolation — is observed by the conformance oracle.) -/
+theorem probe_position_is_shift_partial (n m : ℕ) [NeZero n] [NeZero m] (Φ : ZMod n × ZMod m → ℂ) (p : ZMod n) (q : ZMod m) :
+    (zmodPair2 n m).Finv (fun kl => (stdAddChar (-(p * kl.1)) : ℂ) * (stdAddChar (-(q * kl.2)) : ℂ) * (zmodPair2 n m).F Φ kl)
+      = fun r => Φ (r.1 - p, r.2 - q) := by
+  have : (fun kl : ZMod n × ZMod m => (stdAddChar (-(p * kl.1)) : ℂ) * (stdAddChar (-(q * kl.2)) : ℂ) * (zmodPair2 n m).F Φ kl)
+      = (zmodPair2 n m).F (fun r => Φ (r.1 - p, r.2 - q)) := by
+    funext kl
+    obtain ⟨k, l⟩ := kl
+    exact (probe_shift_2d n m Φ p q k l).symm
+  rw [this, (zmodPair2 n m).inv_left]
 
 /-- the ramp has modulus one, so the probe's norm does not depend on the position -/
 theorem shift_kernel_unit_modulus (N : ℕ) [NeZero N] (x : ZMod N) : ‖(ZMod.stdAddChar x : ℂ)‖ = 1 :=
